@@ -5,12 +5,11 @@
    Engine/PointSpec.v, which contains the built-in count and scan plans as the RunEngine sees them), devices that do not
    fail and whose readings are determined by the `read` message, and EVERY well-formed schedule with pause requests
    (hard, or deferred to the next checkpoint) + resume() and suspension requests (no pre/post plans) + releases at
-   arbitrary moments, any number of times, also during a replay -- except that no new request arrives while a
-   suspension keeps rewinding switched off (the window that is C11's subject) --, a finished execution has recorded
+   arbitrary moments, any number of times, also during a replay and also while an earlier suspension keeps rewinding
+   switched off (the window that is C11's subject), a finished execution has recorded
    exactly the (run, stream, seq_num, data) events and the RunStop documents of the reference semantics -- hence the
    same as the uninterrupted execution -- and nothing raised.
-   Still decided only by the differential oracle (harness/props/C03.py): requests inside a suspension's
-   non-rewindable window, suspenders with pre/post plans, plans outside the class (rewindable toggles, monitors,
+   Still decided only by the differential oracle (harness/props/C03.py): suspenders with pre/post plans, plans outside the class (rewindable toggles, monitors,
    several open runs at once, closed-loop plans), record_interruptions.
    (a) Proved about the bundler of Engine/RE.v, for all bundler states:
      (a) a checkpoint snapshots every sequence counter; a rewind puts every snapshotted counter of a data stream
@@ -20,7 +19,7 @@
      + C04 (Props/C04.v): exactly the messages since the checkpoint are re-issued, in order. *)
 From Coq Require Import List ZArith.
 From BV Require Import Engine.RE Engine.REInst Engine.PointSpec Proofs.RE_Ctl Proofs.RE_Replay Proofs.RE_CtlExamples
-  Proofs.RE_Points Proofs.RE_PointsEx Proofs.RE_PointsEx2.
+  Proofs.RE_Points Proofs.RE_PointsEx Proofs.RE_PointsEx2 Proofs.RE_PointsEx3.
 Import ListNotations.
 
 Theorem C03_rewind_restores_counters :
@@ -190,3 +189,28 @@ Example C03_data_equivalence_scan_nonvacuous :
    (forall x, In x (PointSpec.final_events sc_susp_obs) <-> In x (PointSpec.final_events sc_plain_obs)) /\
    PointSpec.stops sc_susp_obs = PointSpec.stops sc_plain_obs /\ no_raise sc_susp_obs = true).
 Proof. exact c03_scan_summary. Qed.
+
+
+(* ... and requests INSIDE a suspension's non-rewindable window: three more executions of the two-point plan recorded
+   from the real RunEngine (suspended, then paused between two messages of the suspender plan; suspended, then suspended
+   again inside the window; suspended, then paused inside the suspender's wait_for) are reproduced by the model and
+   meet every hypothesis; the second request arrives while rewinding is off and is accepted; equal events and RunStops *)
+Example C03_data_equivalence_window_nonvacuous :
+  (hyps_ok ex_win_pause_ledger ex_win_pause_evs' = true /\ hyps_ok ex_win_susp_ledger ex_win_susp_evs' = true /\
+   hyps_ok ex_win_wait_pause_ledger ex_win_wait_pause_evs' = true) /\
+  check ex_tapes ex_win_pause_ledger [2] [0; 3] false ex_win_pause_evs ex_win_pause_obs = true /\
+  check ex_tapes ex_win_susp_ledger [2] [0; 3] false ex_win_susp_evs ex_win_susp_obs = true /\
+  check ex_tapes ex_win_wait_pause_ledger [2] [0; 3] false ex_win_wait_pause_evs ex_win_wait_pause_obs = true /\
+  (nth_error ex_win_pause_evs 18 = Some (EvReqPause false) /\
+   rewindable TP nat (ty_before ex_win_pause_ledger ex_win_pause_evs 18) = false /\
+   state TP nat (ty_before ex_win_pause_ledger ex_win_pause_evs 19) = Pausing) /\
+  (nth_error ex_win_susp_evs 19 = Some (EvReqSuspend 1 false false) /\
+   rewindable TP nat (ty_before ex_win_susp_ledger ex_win_susp_evs 19) = false /\
+   state TP nat (ty_before ex_win_susp_ledger ex_win_susp_evs 20) = Suspending) /\
+  ((forall x, In x (PointSpec.final_events ex_win_pause_obs) <-> In x (PointSpec.final_events ex_plain_obs)) /\
+   PointSpec.stops ex_win_pause_obs = PointSpec.stops ex_plain_obs /\ no_raise ex_win_pause_obs = true) /\
+  ((forall x, In x (PointSpec.final_events ex_win_susp_obs) <-> In x (PointSpec.final_events ex_plain_obs)) /\
+   PointSpec.stops ex_win_susp_obs = PointSpec.stops ex_plain_obs /\ no_raise ex_win_susp_obs = true) /\
+  ((forall x, In x (PointSpec.final_events ex_win_wait_pause_obs) <-> In x (PointSpec.final_events ex_plain_obs)) /\
+   PointSpec.stops ex_win_wait_pause_obs = PointSpec.stops ex_plain_obs /\ no_raise ex_win_wait_pause_obs = true).
+Proof. exact c03_window_nonvacuous. Qed.
